@@ -63,11 +63,14 @@ impl InstructionGenerator {
                 // the step is kept as it was evaluated (only the sum is converted to the type of the counter)
                 self.generate_expression_instructions(s);
                 self.store_hidden_variable(&step_name, pos);
-                // is step <> 0 ?
+                // is step = 0 ? The error is raised here, before the loop, so that RESUME
+                // runs the FOR line again (and not the part of the loop that follows the body)
                 self.push(Instruction::CopyAToB, pos);
                 self.push_load(Variant::VInteger(0), pos);
-                self.push(Instruction::NotEqual, pos);
-                self.jump_if_false("zero", pos);
+                self.push(Instruction::Equal, pos);
+                self.jump_if_false("non-zero-step", pos);
+                self.push(Instruction::Throw(RuntimeError::ForLoopZeroStep), step_pos);
+                self.label("non-zero-step", pos);
                 // the direction of the loop is decided by the sign of the step at run time
                 // (the loop body is generated only once)
                 self.generate_for_loop_instructions_positive_or_negative_step(
@@ -77,9 +80,6 @@ impl InstructionGenerator {
                     Some(&step_name),
                     pos,
                 );
-                // Zero step
-                self.label("zero", pos);
-                self.push(Instruction::Throw(RuntimeError::ForLoopZeroStep), step_pos);
                 self.label("out-of-for", pos);
             }
             None => {
